@@ -174,7 +174,30 @@ func (h *harness) sectionFilterJoin() {
 		row := h.genRow(rec, dists, repos)
 		name := mnames[h.rnd.Intn(len(mnames))]
 		m := ms[name]
-		switch h.rnd.Intn(4) {
+		switch h.rnd.Intn(5) {
+		case 4:
+			// several records of the same package: other repositories / distributions
+			opt := false
+			mm := m
+			if name == "rhel" && h.rnd.Chance(1, 2) {
+				opt, mm = true, rhelOpt
+			}
+			recs := []recT{rec}
+			for k := 1 + h.rnd.Intn(3); k > 0; k-- {
+				o := rec
+				if h.rnd.Chance(2, 3) {
+					x := repos[h.rnd.Intn(len(repos))]
+					o.hasRepo, o.rname, o.rkey, o.ruri = true, x.name, x.key, x.uri
+				} else {
+					o.hasDist, o.d = true, dists[h.rnd.Intn(len(dists))]
+				}
+				if h.rnd.Chance(1, 2) {
+					recs = append(recs, o)
+				} else {
+					recs = append([]recT{o}, recs...)
+				}
+			}
+			opMatchN(h.ctx, r, name, mm, opt, recs, row)
 		case 0:
 			opFilter(r, name, m, rec)
 		case 1:
@@ -261,6 +284,17 @@ func (h *harness) sectionWitnesses() {
 	opMatch(h.ctx, r, "rhel", rhelOpt, true, rh, rhRow)
 	rhRow.fixed = "0:2.0-1.el8"
 	opMatch(h.ctx, r, "rhel", rhelOpt, true, rh, rhRow)
+	// a package indexed under BaseOS and AppStream, advisory for AppStream (either order)
+	{
+		bo := recT{pn: "nodejs", pk: "binary", src: true, pa: "x86_64", ver: "1:16.0.0-1.el8", hasRepo: true, rname: "cpe:/o:redhat:enterprise_linux:8::baseos", rkey: "rhel-cpe-repository"}
+		as := bo
+		as.rname = "cpe:/a:redhat:enterprise_linux:8::appstream"
+		adv := rowT{vn: "nodejs", vk: "binary", rname: "cpe:/a:redhat:enterprise_linux:8::appstream", rkey: "rhel-cpe-repository", fixed: "1:16.20.2-1.el8"}
+		opMatchN(h.ctx, r, "rhel", ms["rhel"], false, []recT{bo, as}, adv)
+		opMatchN(h.ctx, r, "rhel", ms["rhel"], false, []recT{as, bo}, adv)
+		opMatchN(h.ctx, r, "rhel", ms["rhel"], false, []recT{bo}, adv)
+		opMatchN(h.ctx, r, "rhel", ms["rhel"], false, []recT{bo, bo, as}, adv)
+	}
 	// unknown / undeclared constraints
 	opJoin(r, []string{"PackageName"}, false, base, row)
 	opJoin(r, []string{"PackageSourceName"}, false, base, row)
